@@ -172,6 +172,9 @@ func generateGrid(family string, n int, r *rng, p func(string, ...any)) bool {
 	case "encgrid":
 		genEncGrid(p)
 		return true
+	case "seqgrid":
+		genSeqGrid(r, n, p)
+		return true
 	case "depthgrid":
 		genDepthGrid(p)
 		return true
@@ -747,4 +750,95 @@ func genDepthGrid(p func(string, ...any)) {
 			p("enc uh %s", goInner)
 		}
 	}
+}
+
+// Decoded values that are edited, re-signed or verified twice (C02, C04, C09, C13, C18, C19):
+// state carried on one object or between calls.
+func genSeqGrid(r *rng, n int, p func(string, ...any)) {
+	wcfg := &genCfg{exoticSpell: 0, invalid: 0, depth: 1, maxEntries: 6}
+	iv, piv := "b:0102", "b:0304"
+	mk := func(prot, unprot []*W) *W {
+		pc := []byte{}
+		if prot != nil {
+			pc = wMap(prot...).enc()
+		}
+		pb := wBstr(pc)
+		return wArr(pb, wMap(unprot...), wBstr([]byte{9}), wBstr(tsig(1, refTBS1(pc, []byte{1}, []byte{9}))))
+	}
+	ivW, pivW := []*W{wInt(5), wBstr([]byte{1, 2})}, []*W{wInt(6), wBstr([]byte{3, 4})}
+	alg := []*W{wInt(1), wInt(-7)}
+	// C13: decode, add the counterpart of an IV parameter held by the other (still raw) bucket
+	for _, sp := range []string{"i64", "i", "u8"} {
+		for _, c := range []struct {
+			prot, unprot  []*W
+			bucket, entry string
+		}{
+			{append(append([]*W{}, alg...), ivW...), nil, "u", "{" + sp + ":6=" + piv + "}"},
+			{append(append([]*W{}, alg...), pivW...), nil, "u", "{" + sp + ":5=" + iv + "}"},
+			{alg, ivW, "p", "{" + sp + ":6=" + piv + "}"},
+			{alg, pivW, "p", "{" + sp + ":5=" + iv + "}"},
+			{alg, ivW, "u", "{" + sp + ":6=" + piv + "}"},
+			{alg, nil, "u", "{" + sp + ":4=b:aa}"},
+			{alg, nil, "p", "{" + sp + ":4=b:aa}"},
+			{alg, nil, "p", "{i64:2=[" + sp + ":4]," + sp + ":4=b:aa}"},
+			{alg, nil, "u", "{" + sp + ":7=cs(H(-;{};-;{});01)}"},
+			{alg, nil, "p", "{" + sp + ":7=cs(H(-;{};-;{});01)}"},
+		} {
+			root := mk(c.prot, c.unprot)
+			p("edit s1 %s %s %s", hexs(wTag(18, root).enc()), c.bucket, c.entry)
+			sg := wArr(root.Items[0].clone(), root.Items[1].clone(), wBstr([]byte{1}))
+			p("edit sig %s %s %s", hexs(sg.enc()), c.bucket, c.entry)
+			sm := wTag(98, wArr(root.Items[0].clone(), root.Items[1].clone(), wBstr([]byte{9}), wArr(wArr(wBstr([]byte{}), wMap(), wBstr([]byte{1})))))
+			p("edit sm %s %s %s", hexs(sm.enc()), c.bucket, c.entry)
+		}
+	}
+	// C04: re-sign decoded messages whose protected bucket is empty, then verify other
+	// empty-protected messages with no external data (state must not leak between decodes)
+	for _, spell := range [][]byte{{}, {0xa0}} {
+		pb := wBstr(spell)
+		for i := 0; i < 3; i++ {
+			msg := wTag(18, wArr(pb.clone(), wMap(), wBstr([]byte{byte(i)}), wBstr([]byte{1})))
+			p("resign t %s - T:-7:1", hexs(msg.enc()))
+			p("resign t %s 01 T:-35:2", hexs(msg.enc()))
+			fresh := wTag(18, wArr(pb.clone(), wMap(), wBstr([]byte{7}), wBstr(tsig(1, refTBS1([]byte{}, []byte{}, []byte{7})))))
+			if len(spell) == 1 {
+				fresh = wTag(18, wArr(pb.clone(), wMap(), wBstr([]byte{7}), wBstr(tsig(1, refTBS1([]byte{0xa0}, []byte{}, []byte{7})))))
+			}
+			p("v1 t %s - T:-7:1 -", hexs(fresh.enc()))
+			p("v1 t %s - T:-35:2 -", hexs(fresh.enc()))
+			p("dec s1 %s", hexs(fresh.enc()))
+			p("use s1 %s", hexs(fresh.enc()))
+		}
+	}
+	// C02 / C18: verify, change the retained protected bytes in place, verify again
+	for i := 0; i < n/4+20; i++ {
+		kind := []string{"s1", "sm"}[r.intn(2)]
+		m, root := genSignedMsg(r, wcfg, kind)
+		// force a non-minimal head on the body protected bucket half of the time
+		if r.chance(1, 2) {
+			root.Items[0].HW = r.pick([]int{1, 2, 4, 8})
+		}
+		top := tagged(kind, root)
+		praw := root.Items[0].enc()
+		idx := 0
+		if len(praw) > 1 {
+			idx = len(praw) - 1 - r.intn(minInt(len(praw)-1, 4))
+		}
+		vs := []string{}
+		k := 1
+		if kind == "sm" {
+			k = len(m.sigs)
+		}
+		for j := 0; j < k; j++ {
+			vs = append(vs, fmt.Sprintf("T:%d:%d", m.alg, m.kid))
+		}
+		p("vtwice %s %s %s [%s] %d %d", kind, hexs(top.enc()), m.ext, strings.Join(vs, ","), idx, 1+r.intn(255))
+	}
+}
+
+func minInt(a, b int) int {
+	if a < b {
+		return a
+	}
+	return b
 }
